@@ -411,6 +411,12 @@ HAND = {
     'ref_to_signed_rule': '#root: /"k"/_\n#site: /"a"/s <= #root\n#u: /#site/"u"/_ <= #adm\n#adm: /"m"/_ <= #root\n',
     # the same signer reached twice: listed twice, and through two rules ending on one node
     'dup_signers': '#k: /"k"/x\n#p: /"p"/x <= #k | #k\n#q: /"q"/x <= #k\n#q: /"q"/x <= #k\n',
+    # a rule with several definitions referenced twice: each reference brings the constraints of ITS alternative
+    'redef_referenced_twice': '#a: /"k"/x & {x: "a"}\n#a: /"m"/y & {y: "b"}\n#r: /#a/#a\n',
+    'redef_referenced_twice_shared': '#c: /"k"/x & {x: "a"|"c"}\n#c: /"m"/x & {x: "b"|"c"}\n#u: /#c/#c\n',
+    'redef_referenced_twice_temp': '#b: /_t/"k" & {_t: "a"}\n#b: /_t/"m" & {_t: "b"}\n#s: /#b/"x"/#b\n',
+    # user-function arguments that are not bound when the constrained component is reached
+    'eq_fn_unbound': '#r: /y/x & {y: $eq(x)}\n#key: /"K"/k & {k: $eq(owner)}\n#p1: /"p"/owner <= #key\n#p2: /"q"/e <= #key\n',
     'temp_rule': '#_t: /"a"/x\n#_t: /"b"\n#s: /"c"/x <= #k\n#k: /"k"/x\n',
     'multi_option_sets': '#r: /x/y & {x: "a"|"b", y: "c"} | {x: "c"}\n#k: /"k"/x\n#s: /#r/"z" <= #k\n',
     'pattern_option': '#r: /x/y/z & {z: x|"c"}\n',
